@@ -86,6 +86,17 @@ class Report(object):
         self.obligations.setdefault(rule, []).append(key)
         self.suppressed.append({'rule': rule, 'key': key, 'reason': reason})
 
+    def retract(self, pred, reason):
+        """Failures for which pred(failure) holds were decided by a stronger argument given in `reason`: they are listed among the
+        reasoned suppressions instead."""
+        keep = []
+        for f in self.failures:
+            if pred(f):
+                self.suppressed.append({'rule': f.rule, 'key': f.key, 'reason': reason})
+            else:
+                keep.append(f)
+        self.failures = keep
+
     def floor(self, rule, found, floor):
         self.floors.append((rule, found, floor))
         if found < floor:
